@@ -6,6 +6,35 @@ PENDING = "check not built yet in this round (specification and driver in progre
 
 # id -> (level text, level note, technique, design ref)
 BUILT = {
+ "C02": ("Lifecycle.tla models the lineage of screens and files (split, reveal, mask, unmask, set_observed, save, load, CLI "
+         "reveal/metadata); TLC checks LoadIsSaved / SaveIsCurrent on every explored transition for several fixtures "
+         "(unicode/empty/unequal-length names, empty or absent control name, mappings larger than the data after a hold-out, "
+         "zeros and NaN behind the mask); behaviours TLC explored and random longer histories are executed on real objects "
+         "and real HDF5 files, the full projection of every object (names, doses, value bits, mask, control name, three id "
+         "arrays, three mappings, counters) is logged after every step, and TraceLifecycle(Focus=C02) requires file = saved "
+         "screen, loaded screen = file, nothing else touched, for any number of cycles; ExperimentSpace save/load twice is a "
+         "fixed point.",
+         "a file's content is observed through Screen.load_h5 itself; projection code is trusted glue.",
+         "TLA+ state machine + TLC; spec->code replay of explored behaviours; code->spec trace validation (relational on logged projections)",
+         "5/C02"),
+ "C03": ("Same machine; TLC checks IdStable / SameNameSameId / SpaceNeverShrinks in every explored state (fixtures where a "
+         "sample and a (treatment, dose) occur only in rows the hold-out can take); real histories (TLC-explored and random) "
+         "are validated by TraceLifecycle(Focus=C03): after every operation every screen and file carries the prepared "
+         "mappings, its ids are the lookups of its own names, sizes never shrink and a fixed posterior sample predicts "
+         "bit-identically for the same experiment on every stage.",
+         "the defect F1 found by this check was repaired in /repo (fix: commit 556351c).",
+         "TLA+ state machine + TLC; spec->code replay; code->spec trace validation",
+         "5/C03"),
+ "C12": ("Same machine; TLC checks Atomic in every state and RevealExact / ValuesFrozen / MaskMonotoneUnderReveal on every "
+         "transition (reveal of any id set incl. already observed, unknown negative and too-large ids, the empty set; refusal "
+         "iff all-zero or NaN); real histories are replayed action by action by TraceLifecycle(Focus=C12) comparing mask, "
+         "stored value bits, conditions, plate assignment, plate ids and metadata counters of every object after every step; "
+         "Construct.tla enumerates every plate/mask pattern of 4/5 rows for the constructor clauses (mixed plate rejected "
+         "wherever its rows sit, no mask = all observed, no observations = all unobserved) and arbitrary set_observed "
+         "selections, all replayed into the real constructor, plus larger random cases via TraceConstruct.",
+         "hold-out halves are non-empty; set_observed inside histories acts on whole plates.",
+         "TLA+ state machine + TLC; spec->code replay of exported cases/behaviours; code->spec trace validation",
+         "5/C12"),
  "C16": ("KPerSample.tla transcribes the policy filter as select_next_plate calls it; TLC explores every screen of <=5/6 "
          "single-sample plates over 3 samples (any plate-id/sample interleaving, any observed subset), k in 1..3 and every "
          "selection order the policy admits, checking the five clauses of C16 in every state; every reachable state of the "
